@@ -40,10 +40,17 @@ ASSUMPTIONS = [
     "in binary floating point, the returned points are mapped back and judged against the same exact "
     "answer (default tol=1e-8 stays >= 95x below every non-zero quantity the code compares with it)",
     "purity: the four endpoint arguments must be bitwise unchanged after every call",
+    "scale axis: every unordered-pair configuration of the quick boxes is also evaluated under exact "
+    "power-of-two diagonal scalings (uniform 2^14, 2^17, 2^20, 2^-14, 2^-20 and anisotropic ones giving "
+    "crossing angles down to ~1e-6 rad); diagonal maps preserve the exact verdict and map the exact points; "
+    "a scaled configuration is skipped (and counted) when a quantity the code compares with its tol=1e-8 "
+    "is non-zero but below 50*tol (2-d: sin of the crossing angle, relative line offset; 3-d: all scales "
+    "below 2^-10, because segments_3d compares length^2 quantities with an absolute tol)",
 ]
 BOUNDS = {
     "quick": "2-d: endpoints in {0..3}^2, 240 oriented segments, all 57 600 ordered pairs; "
-    "3-d: endpoints in {0,1,2}^3, 702 oriented segments, all 492 804 ordered pairs",
+    "3-d: endpoints in {0,1,2}^3, 702 oriented segments, all 492 804 ordered pairs; scale axis: all 14 400 "
+    "(2-d) / 123 201 (3-d) ordered pairs of unoriented segments x 10 / 6 diagonal scalings, orientation alternating",
     "thorough": "quick + 2-d {0..4}^2 (600 oriented segments, 360 000 ordered pairs) + 3-d "
     "{0..3}^3 (2016 segments: first in both orientations x second in lexicographic "
     "orientation, 8.1e6 calls) + 3-d {0,1,2}^3 repeated with int64 arrays",
@@ -70,6 +77,98 @@ def cases(tier):
     for dim, n, second, how in boxes:
         for k in range(len(_segments(dim, n))):
             out.append({"dim": dim, "n": n, "first": k, "second": second, "how": how})
+    # scale axis: the same lattice configurations under exact diagonal scalings
+    for dim, n in ((2, 4), (3, 3)):
+        for k in range(len(_segments(dim, n))):
+            out.append({"dim": dim, "n": n, "first": k, "axis": "scale"})
+    return out
+
+
+# Exact diagonal scalings (powers of two per coordinate axis). Any invertible diagonal map
+# preserves parallelism, collinearity, skewness and the parameters t of intersection points,
+# so the exact answer is the image of the lattice answer. Large uniform scales probe
+# thresholds that are not homogeneous in the segment length; anisotropic ones produce small
+# crossing angles (down to ~1e-6 rad) with exactly representable integer coordinates.
+SCALES = {
+    2: [(14, 14), (17, 17), (20, 20), (-14, -14), (-20, -20), (10, 0), (0, 10), (17, 0), (0, 17), (20, 6)],
+    3: [(14, 14, 14), (17, 17, 17), (20, 20, 20), (10, 0, 0), (0, 10, 10), (-14, -14, -14)],
+}
+BAND = 50.0  # a quantity the code compares with tol must be 0 or >= BAND * tol
+CODE_TOL = 1e-8
+
+
+def _in_band_2d(a, b, c, d):
+    """True if segments_2d's (relative) tolerance tests are not decided by a safe margin for
+    this exact configuration: crossing angle sin < BAND*tol, or parallel lines closer than
+    BAND*tol*max(L1,L2)/L1."""
+    u, v, w = X.sub(b, a), X.sub(d, c), X.sub(c, a)
+    l1, l2 = X.dot(u, u), X.dot(v, v)
+    discr = u[0] * v[1] - u[1] * v[0]
+    lim2 = X.F(BAND * CODE_TOL) ** 2
+    if discr != 0:
+        return discr * discr < lim2 * l1 * l2
+    cr = w[0] * u[1] - w[1] * u[0]
+    if cr != 0:
+        return cr * cr < lim2 * max(l1, l2)
+    return False
+
+
+def _run_scale_case(case) -> Outcome:
+    out = Outcome()
+    dim, n = case["dim"], case["n"]
+    fn = _fn(dim)
+    segs = _segments(dim, n)
+    s1 = segs[case["first"]]
+    per_cat: dict = {}
+    for j, s2 in enumerate(segs):
+        exact = X.seg_isect(s1[0], s1[1], s2[0], s2[1])
+        regime = _regime(s1[0], s1[1], s2[0], s2[1])
+        ex_pts = list(exact[1:])
+        nontrivial = _bbox_meet(s1[0], s1[1], s2[0], s2[1])
+        for si, exps in enumerate(SCALES[dim]):
+            sname = "x".join(f"2^{e}" for e in exps)
+            if dim == 3 and min(exps) < -10:
+                # segments_3d compares products of two coordinate differences (~ scale^2) with
+                # the absolute tol=1e-8: below 2^-10 every such product is inside the band
+                out.ev(f"skipped:3d/{sname}/inside-tolerance-band")
+                continue
+            fac = [2.0 ** e for e in exps]
+            if dim == 2:
+                fr = [X.F(2) ** e for e in exps]
+                sc = lambda p: tuple(x * f for x, f in zip(p, fr))  # noqa: E731
+                if _in_band_2d(sc(s1[0]), sc(s1[1]), sc(s2[0]), sc(s2[1])):
+                    out.ev(f"skipped:2d/{sname}/inside-tolerance-band")
+                    continue
+            o1 = (j + si) % 2
+            a, b = (s1[0], s1[1]) if o1 == 0 else (s1[1], s1[0])
+            c, d = (s2[0], s2[1]) if (j // 2 + si) % 2 == 0 else (s2[1], s2[0])
+            args = [np.array([x * f for x, f in zip(p, fac)], dtype=float) for p in (a, b, c, d)]
+            try:
+                res = fn(*args)
+                res_u = None if res is None else np.asarray(res, dtype=float) / np.array(fac).reshape((-1, 1))
+                kind, pts = _classify_result(res_u, dim)
+            except Exception as e:
+                kind, pts, res = "raised", [], repr(e)
+            bad = _verdict(exact, ex_pts, kind, pts)
+            key = (dim, "sc", si, min(case["first"], j), max(case["first"], j)) if nontrivial else None
+            if bad is not None:
+                cat = (bad, sname)
+                per_cat[cat] = per_cat.get(cat, 0) + 1
+                if per_cat[cat] <= 1:
+                    out.violate(
+                        f"segments_{dim}d: {bad}", scaling=sname,
+                        start_1=args[0], end_1=args[1], start_2=args[2], end_2=args[3],
+                        lattice=[list(a), list(b), list(c), list(d)],
+                        expected=[exact[0]] + [[float(x) * f for x, f in zip(p, fac)] for p in ex_pts],
+                        observed=res if isinstance(res, str) else (None if res is None else np.asarray(res)),
+                        regime=regime,
+                    )
+                out.ev(f"VIOLATION/{dim}d/scale/{sname}/{regime}/{exact[0]}->{kind}", key)
+            else:
+                out.ev(f"{dim}d/scale/{sname}", key)
+    for cat, cnt in per_cat.items():
+        if cnt > 1:
+            out.extra["violations_not_listed"] = out.extra.get("violations_not_listed", 0) + cnt - 1
     return out
 
 
@@ -174,6 +273,8 @@ def _fn(dim):
 
 
 def run_case(case) -> Outcome:
+    if case.get("axis") == "scale":
+        return _run_scale_case(case)
     out = Outcome()
     dim, n, how = case["dim"], case["n"], case["how"]
     fn = _fn(dim)
